@@ -142,3 +142,27 @@ pub fn recovered_then_write() {
     vcheck!(served == Some(nb), "recovered:a write after recovery from a checkpoint loses on a peer holding the recovered value");
     vcover!(rts.time > t0, "recovered stamp ahead of the restarted clock");
 }
+
+/// commands whose bookkeeping in ReplicatedShardActor::record_mutation_post_execute is exercised by `clock_monotone`
+pub fn command_of(which: u8) -> redis_sim::redis::Command {
+    use redis_sim::redis::Command;
+    match which {
+        0 => Command::FlushAll,
+        1 => Command::FlushDb,
+        2 => Command::set("j".to_string(), sds1(b'v')),
+        3 => Command::Del(vec!["j".to_string()]),
+        4 => Command::HSet("h".to_string(), vec![(sds1(b'f'), sds1(b'v'))]),
+        5 => Command::HDel("h".to_string(), vec![sds1(b'f')]),
+        6 => Command::Incr("j".to_string()),
+        7 => Command::Get("j".to_string()),
+        _ => Command::Ping(None),
+    }
+}
+/// whatever command a shard has just executed, its clock never moves backwards: the next local write is stamped above
+/// the clock reading before the command (`which` is concrete per harness; the clock is any value below 2^62)
+pub fn clock_monotone(which: u8) {
+    let t0 = vs::u64();
+    vs::assume(t0 < (1 << 62));
+    let t = crate::env::clock_after_command(t0, which);
+    vcheck!(t > t0, "clock:a command moved the shard's clock backwards (stamps issued afterwards repeat or decrease)");
+}
